@@ -244,10 +244,10 @@ func countKinds(c *Ctx, prefix string, b *roaring.Bitmap) {
 
 // ---------------------------------------------------------------- storage forms
 
-var ownedForms = []string{"add", "addmany", "range", "opt", "mixed", "cowclone", "stream", "frombuffer", "fromunsafe", "frozen", "dense"}
+var ownedForms = []string{"add", "addmany", "range", "opt", "mixed", "cowclone", "stream", "frombuffer", "fromunsafe", "frozen", "dense", "aggregate3"}
 
 // formsNoZC excludes forms that alias a caller buffer.
-var formsNoZC = []string{"add", "addmany", "range", "opt", "mixed", "cowclone", "stream"}
+var formsNoZC = []string{"add", "addmany", "range", "opt", "mixed", "cowclone", "stream", "aggregate3"}
 
 // buildForm constructs a library bitmap holding exactly m in the given storage form.
 // It returns an error string when the construction itself misbehaves.
@@ -315,6 +315,45 @@ func buildForm(r *Rng, m *ISet, form string) (*BM, string) {
 		addRanges(b2, g2)
 		b2.RunOptimize()
 		b = roaring.Or(b1, b2)
+	case "aggregate3":
+		// the union of three overlapping parts, computed by one of the many-way aggregates
+		// (lazy kernels + repair step): a bitmap "produced by an operation" rather than built directly
+		parts := [3]*roaring.Bitmap{roaring.New(), roaring.New(), roaring.New()}
+		for _, v := range splitAtChunks(m.iv) {
+			// cut every piece at one or two random points and deal the pieces out, with overlaps
+			lo := v.Lo
+			for lo <= v.Hi {
+				hi := v.Hi
+				if hi > lo && r.Chance(0.5) {
+					hi = r.Range(lo, v.Hi)
+				}
+				k := r.Intn(3)
+				if hi-lo > 64 {
+					parts[k].AddRange(lo, hi+1)
+				} else {
+					for x := lo; x <= hi; x++ {
+						parts[k].Add(uint32(x))
+					}
+				}
+				if r.Chance(0.3) {
+					parts[(k+1)%3].AddRange(lo, hi+1)
+				}
+				lo = hi + 1
+			}
+		}
+		if r.Chance(0.5) {
+			parts[r.Intn(3)].RunOptimize()
+		}
+		switch r.Intn(4) {
+		case 0:
+			b = roaring.FastOr(parts[0], parts[1], parts[2])
+		case 1:
+			b = roaring.ParOr(1+r.Intn(3), parts[0], parts[1], parts[2])
+		case 2:
+			b = roaring.HeapOr(parts[0], parts[1], parts[2])
+		default:
+			b = roaring.ParHeapOr(1+r.Intn(3), parts[0], parts[1], parts[2])
+		}
 	case "cowclone":
 		src := roaring.New()
 		addMany(src, m.iv)
